@@ -882,7 +882,7 @@ func modifyCell(f *btpb.RowFilter, c *btpb.Cell) (*btpb.Cell, error) {
 	// Consider filters that may modify the cell contents
 	switch filter := f.Filter.(type) {
 	case *btpb.RowFilter_StripValueTransformer:
-		return &btpb.Cell{TimestampMicros: c.TimestampMicros}, nil
+		return &btpb.Cell{TimestampMicros: c.TimestampMicros, Labels: c.Labels}, nil
 	case *btpb.RowFilter_ApplyLabelTransformer:
 		if !validLabelTransformer.MatchString(filter.ApplyLabelTransformer) {
 			return &btpb.Cell{}, status.Errorf(
